@@ -35,3 +35,30 @@ Theorem C12_reads_latest_with_reopen : forall m ops,
   forall k v, get (run (init m) ops) k v = latest_at (writes ops) k v.
 Proof. exact lww_reopen. Qed.
 Print Assumptions C12_reads_latest_with_reopen.
+
+(** Timestamp monotonicity across close + reopen (Proofs/LsmMaxVersion.v):
+    LSM.MaxVersion bounds every stored version, so the commit timestamp Open
+    seeds from it exceeds every version acknowledged before the close — for
+    transactional histories (no version is the plain-API sentinel 2^64-1);
+    [content_ok] holds along every checked history ([C12_checked_run_contents]). *)
+From NoKV Require Import Spec.LsmInvB Proofs.LsmCompact Proofs.LsmChecked Proofs.LsmMaxVersion.
+
+Theorem C12_next_ts_after_reopen_above : forall s ws,
+  content_ok s ws -> (forall w, In w ws -> (r_ver w < 18446744073709551615)%N) ->
+  forall w, In w ws -> (r_ver w < next_ts_after_open (reopen s))%N.
+Proof. exact next_ts_after_reopen_above. Qed.
+Print Assumptions C12_next_ts_after_reopen_above.
+
+Theorem C12_max_version_bounds : forall s x, In x (contents s) -> (r_ver x <= max_version s)%N.
+Proof. exact max_version_ge. Qed.
+Print Assumptions C12_max_version_bounds.
+
+(** Reopen never loses or invents a record, in any state. *)
+Theorem C12_reopen_keeps_contents : forall s ws, content_ok s ws -> content_ok (reopen s) ws.
+Proof. exact reopen_content_ok. Qed.
+Print Assumptions C12_reopen_keeps_contents.
+
+Theorem C12_checked_run_contents : forall m ops,
+  run_checked (init m) nil ops = true -> content_ok (run (init m) ops) (writes ops).
+Proof. exact checked_run_contents. Qed.
+Print Assumptions C12_checked_run_contents.
